@@ -21,13 +21,20 @@ def run(prop, tier):
             if tier == "thorough":
                 jobs.append(dict(src=SRC, atomic=a, args=["excl", "-p", 2, "--", kind, 3, 2]))
                 jobs.append(dict(src=SRC, atomic=a, args=["excl", "-p", 8, "--", kind, 2, 1]))
+    # exclusion for every number of consecutive fruitless acquisition attempts up to 2^24 + 2^16 (2^28 thorough): the waiter is not parked before that
+    patience = (1 << 24) + (1 << 16) if tier == "quick" else (1 << 28)
+    for a in ("c11", "sync", "sim"):
+        jobs.append(dict(src=SRC, atomic=a, args=["hold", "-p", 0, "-S", patience, "-H", 4 * patience, "--", "s"]))
+    # a mutex that p_cond_variable_wait has released is free: a thread that only ever uses trylock must get it (sched_c03.c trypub)
+    jobs.append(dict(src="harness/sched_c03.c", args=["trypub", "-p", p, "-s", 1]))
     acc = mcsched.run_jobs(prop, tier, jobs)
     extra = {}
     if tier == "thorough" and not acc.viols:
         extra = mcsched.conformance(acc, [j for j in jobs if j["args"][0] not in ("values", "barrier")])
     cov = mcsched.coverage(acc, "stateless DFS over all interleavings with <= %d preemptions of 2-3 real threads x (lock|trylock; critical section with a visible step; unlock) "
                                 "on the real PMutex/PSpinLock for each atomic model; oracles: shadow holder count, plain counter watched by the happens-before monitor, "
-                                "deadlock/livelock, blocked-inside-trylock; non-trivial = executions in which an acquisition had to wait" % p)
+                                "deadlock/livelock, blocked-inside-trylock; one long execution per model in which the holder stays inside while a waiter makes "
+                                "%d fruitless attempts before it is treated as blocked (spin abstraction switched off up to that count); non-trivial = executions in which an acquisition had to wait" % (p, patience))
     return common.finish(prop, tier, "model_checking", acc, cov, mcsched.ASSUME, t0, extra=extra)
 
 
